@@ -126,7 +126,15 @@ func (c *fRegistryImpl) dispatch(opid uint64, frame []byte) error {
 	c.mu.RUnlock()
 	verifHook("send.begin", opid)
 
-	resultC <- frame
+	// Never block the reader: the result channel holds the one response a
+	// request needs. A further frame for the same op id (duplicate or late
+	// response) is discarded rather than parking the goroutine every other
+	// in-flight request depends on.
+	select {
+	case resultC <- frame:
+	default:
+		logger().Warnf("frugal: discarding extra response for op id %d", opid)
+	}
 	verifHook("send.end", opid)
 	return nil
 }
